@@ -373,10 +373,17 @@ def write_pad_codewords(buff, version, capacity, length):
     # character position in Micro QR Code versions M1 and M3 symbols shall be
     # represented as 0000.
     write = buff.extend
+    pad_codewords = ((1, 1, 1, 0, 1, 1, 0, 0), (0, 0, 0, 1, 0, 0, 0, 1))
     if version in (consts.VERSION_M1, consts.VERSION_M3):
-        write([0] * (capacity - length))
+        # Extend the stream to the codeword boundary (the final 4 bit codeword
+        # has no boundary within) ...
+        write([0] * min(-length % 8, capacity - length))
+        # ... add the 8 bit pad codewords ...
+        for i in range((capacity - len(buff)) // 8):
+            write(pad_codewords[i % 2])
+        # ... and the final 4 bit codeword 0000
+        write([0] * (capacity - len(buff)))
     else:
-        pad_codewords = ((1, 1, 1, 0, 1, 1, 0, 0), (0, 0, 0, 1, 0, 0, 0, 1))
         for i in range(capacity // 8 - length // 8):
             write(pad_codewords[i % 2])
 
